@@ -24,7 +24,15 @@ def emit(topic, specs, imports=(), extra=""):
     parts = [extra] if extra else []
     srcs = []
     for sp in specs:
-        parts.append(py2lean.translate(sp, REPO))
+        try:
+            parts.append(py2lean.translate(sp, REPO))
+        except py2lean.Untranslatable as e:
+            # fail loudly, but locally: the definition is left out, so exactly the obligations of
+            # Props/C<NN>T that mention it break (the other theorems of the property, the model
+            # driver and the streams keep running); the reason is recorded in the generated file
+            msg = str(e).replace("-/", "- /")
+            print(f"extract: PyFns_{topic}: `{sp.name}` is UNTRANSLATABLE: {msg}")
+            parts.append(f"/- UNTRANSLATABLE by tools/py2lean.py: {msg}\n   The definition `{sp.name}` is therefore missing: every obligation that mentions it is broken. -/\n")
         s = "src/werkzeug/" + sp.module
         if s not in srcs:
             srcs.append(s)
@@ -86,9 +94,37 @@ RANGE_FOR_LENGTH = Spec(
 )
 
 
+RANGES_TY = "List (Int × Option Int)"
+
+RANGE_INIT = Spec(
+    module="datastructures/range.py",
+    qualname="Range.__init__",
+    name="range_init",
+    params=[("units", "Str"), ("ranges", RANGES_TY)],
+    # the object is the pair of its two attributes
+    fields=["units", "ranges"],
+    result=f"Str × {RANGES_TY}",
+    raises=True,  # ValueError for an invalid (start, end) pair
+)
+
+PARSE_RANGE_HEADER = Spec(
+    module="http.py",
+    qualname="parse_range_header",
+    name="parse_range_header",
+    params=[("value", "Option Str"), ("make_inclusive", "Bool")],
+    locals={"ranges": RANGES_TY},
+    result=f"Option (Str × {RANGES_TY})",
+    raises=True,  # `units, rng = value.split("=", 1)` and `ds.Range(...)` can raise: proved impossible
+    calls={
+        "_plain_int": PLAIN_INT_FN,
+        "ds.Range": Fn("range_init", [STR, py2lean.parse_ty(RANGES_TY)], py2lean.parse_ty(f"Str × {RANGES_TY}"), raises=("ValueError",)),
+    },
+)
+
+
 @generator("PyFns_Range")
 def gen_range():
-    return emit("Range", [IS_BYTE_RANGE_VALID, RANGE_FOR_LENGTH])
+    return emit("Range", [IS_BYTE_RANGE_VALID, RANGE_FOR_LENGTH, RANGE_INIT, PARSE_RANGE_HEADER], imports=["WzVerif.Gen.PyFns_Internal"])
 
 
 # --------------------------------------------------------------------------
@@ -227,3 +263,33 @@ GET_CONTENT_LENGTH = Spec(
 @generator("PyFns_Length")
 def gen_length():
     return emit("Length", [GET_CONTENT_LENGTH], imports=["WzVerif.Gen.PyFns_Internal"])
+
+
+# --------------------------------------------------------------------------
+# C06: header value quoting
+
+QUOTE_HEADER_VALUE = Spec(
+    module="http.py",
+    qualname="quote_header_value",
+    name="quote_header_value",
+    # `value: t.Any` is restricted to str (as in the model); `str(value)` is then the identity
+    params=[("value", "Str"), ("allow_token", "Bool")],
+    result="Str",
+    # `_token_chars` (a frozenset of characters) enters through its membership test, which
+    # tools/gen/c06.py evaluates on every code point into Gen.Http.tokenTbl / tokenHigh
+    consts={"_token_chars": ("Wz.Http.isToken", "CharSet")},
+)
+
+UNQUOTE_HEADER_VALUE = Spec(
+    module="http.py",
+    qualname="unquote_header_value",
+    name="unquote_header_value",
+    params=[("value", "Str")],
+    result="Str",
+    raises=True,  # value[0] / value[-1] raise IndexError on "": proved impossible (len guard)
+)
+
+
+@generator("PyFns_Http")
+def gen_http():
+    return emit("Http", [QUOTE_HEADER_VALUE, UNQUOTE_HEADER_VALUE, IS_BYTE_RANGE_VALID], imports=["WzVerif.Model.Http"])
